@@ -33,6 +33,8 @@ RULE = (
     "2..60 (thorough 2..120), through LinearFinite(a, a+size), a in [-10,10], size in [0.05,40]: every shifted Legendre "
     "P_k, k <= 2n-1. non-trivial = decreasing map, or infinite image, or n odd; distinct = distinct descriptor"
 )
+RULE = RULE + " " + 'Every case applies the same transform instance three times to the same grid (identical results, first result and source grid untouched) and once more after the source grid got other weights through the setter (same nodes, new weights).'
+
 ASSUMPTIONS = [
     "the class docstrings of rtransform.py define the maps (see pbt/oracles/rtf_mp.py); mp.diff at 40 digits is r'(x)",
     "the nodes and weights of the input rule are taken as data (their correctness is C01)",
